@@ -138,9 +138,6 @@ static inline BOOL op_eq__QByteArray_cstr(QByteArray b, cstr c) { BOOL r = nonde
 static inline BOOL op_ne__QByteArray_cstr(QByteArray b, cstr c) { return !op_eq__QByteArray_cstr(b, c); }
 static inline unsigned int qstrlen__cstr(cstr c) { return c.isnull ? 0u : (unsigned int)c.len; }
 static inline int qstrcmp__cstr_cstr(cstr a, cstr b) { int r = nondet_int(); __CPROVER_assume(r >= -255 && r <= 255); return r; }
-static inline int qMin__int_int(int a, int b) { return a < b ? a : b; }
-static inline unsigned long qMin__unsignedlong_unsignedlong(unsigned long a, unsigned long b) { return a < b ? a : b; }
-static inline int qMax__int_int(int a, int b) { return a < b ? b : a; }
 
 /* ------------------------------------------------------------------ QString */
 extern unsigned short g_wch;          /* ghost: the tracked witness character */
